@@ -69,6 +69,14 @@ Definition shard_parent (u : N) : N :=
 (* convertShardIdent: prefix | 1 << (63 - pfx_bits), pfx_bits <= 60 by TL-B *)
 Definition shard_of_ident (prefix pfx_bits : N) : N := N.lor prefix (shl64 1 (63 - pfx_bits)).
 
+(* ton.GetParents / getParents: the shard ids of the previous block(s); the
+   sum type of PrevRef is assumed consistent with after_merge *)
+Definition get_parents (prefix pfx_bits : N) (split merge : bool) : list N :=
+  let u := shard_of_ident prefix pfx_bits in
+  if merge then [shard_child u true; shard_child u false]
+  else if split then [shard_parent u]
+  else [u].
+
 (** specification side: a shard id with prefix length [l] (0..63) and prefix
     value [q] (below 2^l) is q * 2^(64-l) + 2^(63-l) *)
 Definition shard_id (l q : N) : N := q * 2 ^ (64 - l) + 2 ^ (63 - l).
